@@ -115,7 +115,7 @@ Theorem vdb_install_complete_checked :
 Proof. exact vdb_install_complete_checked_proof. Qed.
 Print Assumptions vdb_install_complete_checked.
 
-(* binpkg install / same-version replace: the tarball is listed and holds every written byte *)
+(* binpkg install: the tarball is listed and holds every written byte *)
 Theorem bin_install_complete :
   forall base s cat pid pf chunks cache s',
     nolinks s -> bin_cat_ok cat = true -> bin_skip (pf ++ TBZ2) = false ->
@@ -125,8 +125,7 @@ Theorem bin_install_complete :
 Proof. exact bin_install_complete_proof. Qed.
 Print Assumptions bin_install_complete.
 
-(* binpkg replace under ANOTHER file name (1.0 -> 1.1, 1.0 -> 1.0-r0): the real op list is
-   bin_install_ops for the new name; no crash prefix changes any other listed tarball ... *)
+(* binpkg install: no crash prefix changes any other listed tarball *)
 Theorem bin_install_others_untouched :
   forall base s cat pid pf chunks cache,
     nolinks s ->
@@ -135,16 +134,56 @@ Theorem bin_install_others_untouched :
 Proof. exact bin_install_others_untouched_proof. Qed.
 Print Assumptions bin_install_others_untouched.
 
-(* ... so the old version stays listed, in full, at EVERY crash prefix (never neither) — and also
-   after completion (known finding binpkg-replace-keeps-old) *)
-Theorem bin_replace_old_kept :
+(* ------------------------------------------------------------------ binpkg replace (repaired code:
+   rename the new tarball in, then unlink the old one when its file name differs) *)
+(* old-or-new at every crash prefix but the one between the rename and the unlink *)
+Theorem bin_replace_partial :
   forall base s cat pid old pf chunks cache,
-    nolinks s -> bin_cat_ok cat = true -> bin_skip (old ++ TBZ2) = false -> old ++ TBZ2 <> pf ++ TBZ2 ->
-    forall k, let t := run (firstn k (bin_install_ops s base cat pid pf chunks cache)) s in
-      listed bin_cat_ok bin_skip false base t cat (old ++ TBZ2) = listed bin_cat_ok bin_skip false base s cat (old ++ TBZ2)
-      /\ content base t cat (old ++ TBZ2) [] = content base s cat (old ++ TBZ2) [].
-Proof. exact bin_replace_old_kept_proof. Qed.
-Print Assumptions bin_replace_old_kept.
+    nolinks s ->
+    crash_consistent_outside bin_cat_ok bin_skip false base
+      (bin_replace_lo s base cat pid pf chunks) (bin_replace_hi s base cat pid old pf chunks)
+      (bin_replace_ops s base cat pid old pf chunks cache) s.
+Proof. exact bin_replace_partial_proof. Qed.
+Print Assumptions bin_replace_partial.
+
+(* same file name (re-install of the same version): every crash prefix *)
+Theorem bin_replace_same_name_consistent :
+  forall base s cat pid old pf chunks cache,
+    nolinks s -> bin_final base cat old = bin_final base cat pf ->
+    bin_consistent base (bin_replace_ops s base cat pid old pf chunks cache) s.
+Proof. exact bin_replace_same_name_proof. Qed.
+Print Assumptions bin_replace_same_name_consistent.
+
+(* the full statement is false for another file name: at the remaining point both are listed *)
+Theorem bin_replace_refuted : ~ bin_replace_full.
+Proof. exact bin_replace_refuted_proof. Qed.
+Print Assumptions bin_replace_refuted.
+
+(* ... but never neither and never partial: the old tarball is untouched up to and including that
+   point, the new one is as after completion from that point on *)
+Theorem bin_replace_never_neither :
+  forall base s cat pid old pf chunks cache,
+    nolinks s -> bin_cat_ok cat = true -> bin_skip (old ++ TBZ2) = false -> bin_skip (pf ++ TBZ2) = false ->
+    old ++ TBZ2 <> pf ++ TBZ2 ->
+    let ops := bin_replace_ops s base cat pid old pf chunks cache in
+    let p := bin_replace_lo s base cat pid pf chunks + 1 in
+    forall k,
+      (k <= p -> lookup (run (firstn k ops) s) (bin_final base cat old) = lookup s (bin_final base cat old))
+      /\ (p <= k -> lookup (run (firstn k ops) s) (bin_final base cat pf) = lookup (run ops s) (bin_final base cat pf)).
+Proof. exact bin_replace_never_neither_proof. Qed.
+Print Assumptions bin_replace_never_neither.
+
+(* after completion: the new tarball is listed in full and the old one is not listed *)
+Theorem bin_replace_complete :
+  forall base s cat pid old pf chunks cache s',
+    nolinks s -> bin_cat_ok cat = true -> bin_skip (old ++ TBZ2) = false -> bin_skip (pf ++ TBZ2) = false ->
+    old ++ TBZ2 <> pf ++ TBZ2 ->
+    run_opt (bin_replace_ops s base cat pid old pf chunks cache) s = Some s' ->
+    listed bin_cat_ok bin_skip false base s' cat (pf ++ TBZ2) = true
+    /\ content base s' cat (pf ++ TBZ2) [] = Some (concat chunks)
+    /\ listed bin_cat_ok bin_skip false base s' cat (old ++ TBZ2) = false.
+Proof. exact bin_replace_complete_proof. Qed.
+Print Assumptions bin_replace_complete.
 
 (* ------------------------------------------------------------------ executable view = declarative view *)
 Theorem view_exec_is_view_vdb :
